@@ -5,7 +5,9 @@ Model of the NSEC denial-of-existence validator of hickory-net
 `closer_encloser_exists`), statement by statement, as the code is — i.e. with the six repairs
 of /repo commits aa6d1e8, 3224d1f, f7f02bc, a5c3ba8 and the two that follow them (empty
 non-terminals, RFC 6840 §4.1 ancestor-delegation records, negative response without SOA, the
-wildcard label in the encloser search, closer encloser of a wildcard answer, NSEC/RRSIG bits).
+wildcard label in the encloser search, closer encloser of a wildcard answer, NSEC/RRSIG bits)
+and the three completeness repairs that follow (no data for an empty non-terminal, wildcard
+answers judged without a cover of `*.<encloser>`, the wrapping record recognised without SOA).
 
 * a name is `Name` of `Model/Name.lean`; `>`/`<`/`==` on names are `Name.cmp` / `Name.eq`
   (`impl Ord`, `impl PartialEq`), `zone_of`, `num_labels`, `is_wildcard`, `prepend_label`
@@ -94,7 +96,8 @@ def isStrictDescendant (name ancestor : Name) : Bool := ancestor.zoneOf name && 
 
 /-- the closure of `find_nsec_covering_record` -/
 def covers (soa : Option Name) (t : Name) (r : Nsec) : Bool :=
-  gt t r.owner && (lt t r.next || isSoa soa r.next)
+  gt t r.owner
+    && (lt t r.next || isSoa soa r.next || (Name.cmp r.next r.owner != .gt && r.next.zoneOf t))
     && !(isDelegation r.types && r.owner.zoneOf t)
 
 /-- `find_nsec_covering_record` -/
@@ -202,21 +205,24 @@ def verifyCovered (q : Name) (qtype : Nat) (soa : Option Name) (rcode : Nat)
     (answers : List Ans) (nsecs : List Nsec) (nce0 : Name) (cov : Nsec) : Proof :=
   let haveAnswer := !answers.isEmpty
   let queryNameIsEnt := isStrictDescendant cov.next q
+  -- "no data for an empty non-terminal"
+  if queryNameIsEnt && rcode == RCODE_NOERROR && !haveAnswer then .secure
+  else
   let nce1 := encloserStep q nce0 cov.owner
   let nce := encloserStep q nce1 cov.next
   match prependStar nce with
   | none => .bogus
   | some wildcardName =>
     let wbn := wildcardBaseName q haveAnswer answers nsecs
-    let answerArm : Bool :=
-      rcode == RCODE_NOERROR && haveAnswer && !queryNameIsEnt
+    -- "no direct match, no closer match for wildcard expansion response"
+    if rcode == RCODE_NOERROR && haveAnswer && !queryNameIsEnt
         && !closerEncloserExists q cov.owner cov.next wbn
-        && noCloserMatches q soa nsecs wbn && (findCovering soa q nsecs).isSome
+        && noCloserMatches q soa nsecs wbn then .secure
+    else
     match findCovering soa wildcardName nsecs with
     | some wcov =>
       if rcode == RCODE_NXDOMAIN && !haveAnswer && !queryNameIsEnt
           && !isStrictDescendant wcov.next wildcardName then .secure
-      else if answerArm then .secure
       else .bogus
     | none =>
       if !haveAnswer && rcode == RCODE_NOERROR
